@@ -10,6 +10,7 @@
      imgs : per slot "-" (empty) or A:<v>:<fmt>:<dt>:<aff> (an array image), comma separated
      ops  : L<s><p><T|F> F<s> U<s> E<s> D<s> S<s><p> B<s> X<s> (save onto a link to /dev/full) I<s> (int16) W<s><p> (save as uint8)
             T<s><p> (to_filename) C<s><s2> (from_image into slot s2) M<s> (edit np.asanyarray(dataobj))
+            A<s><s2><a|f|v> (slot s2 := a new image of the same class around np.asanyarray(dataobj) / get_fdata() / np.asarray(dataobj))
    -> ok <out>*   out: done | val:<v|G> | saved:<p>:<v|G>:<dt>:<aff>:<scaleid> | bytes:<v|G>:<dt>:<aff>
                        | ref:<enum> | crash | dead *)
 let split c s = if s = "" || s = "-" then [] else String.split_on_char c s
@@ -27,6 +28,7 @@ let op_of tok =
   | 'S' -> Save (n 1, n 2) | 'B' -> ToBytes (n 1) | 'X' -> SaveFull (n 1)
   | 'I' -> SetInt (n 1) | 'W' -> SaveU8 (n 1, n 2)
   | 'T' -> ToFilename (n 1, n 2) | 'C' -> Clone (n 1, n 2) | 'M' -> EditMap (n 1)
+  | 'A' -> Wrap (n 1, n 2, (match tok.[3] with 'a' -> WAny | 'f' -> WFdata | 'v' -> WView | _ -> failwith "wrap"))
   | _ -> failwith ("op " ^ tok)
 let str_err = function ENoImage -> "noimage" | ENoFile -> "nofile" | EShortRead -> "short_read"
   | ENoConversion -> "no_conversion" | ENotSerializable -> "not_serializable" | ENoSpace -> "nospace"
